@@ -1182,7 +1182,7 @@ class ASTBuilder:
             mod: Optional[ast.Module] = None
             try:
                 mod = parseFile(path)
-            except (SyntaxError, ValueError) as e:
+            except (SyntaxError, ValueError, RecursionError) as e:
                 ctx.report(f"cannot parse file, {e}")
 
             self.ast_cache[path] = mod
@@ -1192,7 +1192,7 @@ class ASTBuilder:
         mod = None
         try:
             mod = _parse(py_string)
-        except (SyntaxError, ValueError):
+        except (SyntaxError, ValueError, RecursionError):
             ctx.report("cannot parse string")
         return mod
 
